@@ -28,14 +28,17 @@ RULE = ("strings: (a) every BMP code point as a one-character string (plus all o
         "character some substitution or the quoting rewrites. Distinct by string.")
 ASSUMPTIONS = [
     "element text is read back by the stdlib html.parser tokenizer + bs4's handle_entityref/handle_charref: modelled by "
-    "Base/Reader.v (idealised where html.parser stops tokenising after '&#' + a non-reference; never produced by "
-    "'minimal'/'html'), compared with the real parser on every output",
+    "Base/Reader.v (idealised) and by Model/TextReaderReal.v (real: the tokenizer gives up at '&#' + non-reference, pass 1 / "
+    "pass 2, rest of the document swallowed); both compared with the real parser on every output, the real one without exception",
     "attribute values are read back by html.unescape: modelled in Model/EntitySubst.v from Lib/html/__init__.py, tables "
-    "html.entities.html5 / _invalid_charrefs / _invalid_codepoints generated from the interpreter; int()'s 4300-digit "
-    "limit not modelled",
+    "html.entities.html5 / _invalid_charrefs / _invalid_codepoints and sys.get_int_max_str_digits() generated from the "
+    "interpreter; int()'s digit limit (ValueError -> ParserRejectedMarkup) is modelled in Model/UnescapeLimit.v",
     "re's \\w and \\d classes on str are generated from the interpreter (oracle ranges in Gen/T_C09.v)",
     "regular-expression substitution is modelled by hand-written scanners tied by correspondence; PYTHONHASHSEED=0 "
     "fixes the alternation order the translator reads (proved irrelevant: C09_alternation_order_irrelevant)",
+    "the real text reader is compared in documents '<pre>TEXT</pre>' parsed on their own (first pass, nothing after the "
+    "closing tag); other contexts (pass 2, a ';' later in the document) are covered by the model's parameters and a "
+    "seeded sample with a tail",
 ]
 
 H5 = html.entities.html5
@@ -47,6 +50,14 @@ WELLFORMED = re.compile(r"(?:[^&<>]|&([A-Za-z][A-Za-z0-9]*);)*\Z")
 REF = re.compile(r"&([A-Za-z][A-Za-z0-9]*);")
 ANYFORM = re.compile(r"&(?:#\d+|#x[0-9a-fA-F]+|\w+);", re.I)     # the forms the html5 formatter documents it escapes
 NEUTRAL = ""
+
+
+def py_unescape(t):
+    """html.unescape; its one failure (int()'s digit limit on a decimal reference) as a value."""
+    try:
+        return html.unescape(t)
+    except ValueError:
+        return "EXC:ValueError"
 
 
 def exc(f, *a):
@@ -304,8 +315,8 @@ def oracle_static(ctx, s, fmt, o, kind):
         if not m or any((n + ";") not in H5 for n in REF.findall(o)):
             ctx.fail(case, "an ampersand in the output does not start a well-formed known reference", o, None, tag="amp")
             ok = False
-        if html.unescape(o) != s:
-            ctx.fail(case, "html.unescape of the output is not the original", html.unescape(o), s, tag="unescape")
+        if py_unescape(o) != s:
+            ctx.fail(case, "html.unescape of the output is not the original", py_unescape(o), s, tag="unescape")
             ok = False
     return ok
 
@@ -329,12 +340,15 @@ def model_all(ctx, strings):
             continue
 
         def readings(x):
-            return {"q": ts(x[0]), "text": ts(x[1]), "unescape": ts(x[2]), "attr": ts(x[3][0]) if x[3] else None}
+            chk = x[5]
+            return {"q": ts(x[0]), "text": ts(x[1]), "unescape": ts(x[2]), "attr": ts(x[3][0]) if x[3] else None,
+                    "real": ts(x[4][0]), "real_tok": x[4][1],
+                    "attr_checked": ts(chk[1]) if chk[0] == 0 else (None if chk[0] == 1 else "EXC:ParserRejectedMarkup")}
         out.append({"minimal": ts(r[0][0]) if r[0] else "EXC:KeyError",
                     "minimal_q": ts(r[1][0]) if r[1] else "EXC:KeyError",
                     "html": ts(r[2]), "html5": ts(r[3]), "quote": ts(r[4]),
                     "R": {"minimal": readings(r[5][0]) if r[5] else None, "html": readings(r[6]), "html5": readings(r[7])},
-                    "unescape_s": ts(r[8]), "nbr": bool(r[9]), "nbr_attr": bool(r[10])})
+                    "unescape_s": ts(r[8]), "nbr": bool(r[9]), "nbr_attr": bool(r[10]), "nsh": bool(r[11])})
     return out
 
 
@@ -363,8 +377,8 @@ def run_family(ctx, kind, strings, st, model_subset=None):
                             ("quote", "quoted_attribute_value")):
                 if im[k] != m[k]:
                     ctx.disagree("EntitySubstitution.%s ~ Model.EntitySubst" % name, {"s": s, "family": kind}, im[k], m[k])
-            if m["unescape_s"] != html.unescape(s):
-                ctx.disagree("html.unescape ~ Model.EntitySubst.unescape", {"text": s}, html.unescape(s), m["unescape_s"])
+            if py_unescape(s) != "EXC:ValueError" and m["unescape_s"] != py_unescape(s):
+                ctx.disagree("html.unescape ~ Model.EntitySubst.unescape", {"text": s}, py_unescape(s), m["unescape_s"])
     # ---- direct oracle + the model's readers against the real parser, per formatter
     neutral = []
     for fmt in FMT:
@@ -378,7 +392,15 @@ def run_family(ctx, kind, strings, st, model_subset=None):
         attrs = read_attr_many(qs)
         for s, o, q, t, a in zip(strings, safe, qs, texts, attrs):
             case = {"s": s, "formatter": fmt, "family": kind}
-            if fmt == "html5" and (t != s or a != s) and bare_positions(s):
+            mm = model.get(s)
+            if mm is not None:
+                # the proved exact class (C09_html5_text_roundtrip_iff / _attr_roundtrip_iff / C09_html5_real_text):
+                # a text mismatch must be explained by a bare reference or a stray "&#", an attribute mismatch by a
+                # bare reference in the attribute sense; anything else is not the listed finding
+                in_class = ((t == s or not mm["nbr"] or not mm["nsh"]) and (a == s or not mm["nbr_attr"]))
+            else:
+                in_class = True
+            if fmt == "html5" and (t != s or a != s) and bare_positions(s) and in_class:
                 # the listed class; a few are recorded, all are counted
                 st["known"] += 1
                 if st["known_recorded"] < 3:
@@ -400,18 +422,36 @@ def run_family(ctx, kind, strings, st, model_subset=None):
                 if R["q"] != q:
                     ctx.disagree("quoted_attribute_value(substituted) ~ Model.EntitySubst", {"text": o}, q, R["q"])
                     continue
-                if R["unescape"] != html.unescape(o):
-                    ctx.disagree("html.unescape ~ Model.EntitySubst.unescape", {"text": o}, html.unescape(o), R["unescape"])
+                if py_unescape(o) == "EXC:ValueError":
+                    if R["attr_checked"] != "EXC:ParserRejectedMarkup":
+                        ctx.disagree("html.unescape raises ValueError ~ Model.UnescapeLimit.unescape_raises", {"text": o[:80]},
+                                     "ValueError", R["attr_checked"] and R["attr_checked"][:80])
+                elif R["unescape"] != py_unescape(o):
+                    ctx.disagree("html.unescape ~ Model.EntitySubst.unescape", {"text": o}, py_unescape(o), R["unescape"])
                 if not parser_gives_up(o) and R["text"] != t:
                     ctx.disagree("html.parser+bs4 element text ~ Base.Reader.read_text", {"text": o}, t, R["text"])
-                if R["attr"] != a:
-                    ctx.disagree("html.parser attribute value ~ Model.EntitySubst.read_quoted", {"quoted": q}, a, R["attr"])
+                # the real reader (gives up at a stray "&#"): every output, no exception
+                if R["real"] != t:
+                    ctx.disagree("html.parser+bs4 element text of <pre>o</pre> ~ Model.TextReaderReal.real_read_text",
+                                 {"text": o}, t, R["real"])
+                if (R["real_tok"] == 0) != (not parser_gives_up(o)):
+                    ctx.disagree("charref pattern fails at some '&#' <-> the model's tokenizer left pass 1 (evaluated)",
+                                 {"text": o}, parser_gives_up(o), R["real_tok"])
+                if R["attr_checked"] != a:
+                    ctx.disagree("html.parser attribute value / ParserRejectedMarkup ~ Model.UnescapeLimit.read_quoted_checked",
+                                 {"quoted": q[:80], "length": len(q)}, a if a is None or len(a) < 200 else a[:200],
+                                 R["attr_checked"] if R["attr_checked"] is None or len(R["attr_checked"]) < 200 else R["attr_checked"][:200])
+                if a != "EXC:ParserRejectedMarkup" and R["attr"] != a:
+                    ctx.disagree("html.parser attribute value ~ Model.EntitySubst.read_quoted", {"quoted": q[:200]}, a, R["attr"])
                 if fmt == "html5":
                     # the hypothesis of the partial theorem is exactly the class that reads back (model reader)
                     st["nbr_true" if m["nbr"] else "nbr_false"] += 1
                     if m["nbr"] != (R["text"] == s):
                         ctx.disagree("no_bare_ref s <-> read_text (substitute_html5 s) = s (evaluated)", {"s": s},
                                      R["text"] == s, m["nbr"])
+                    if m["nsh"] != (not parser_gives_up(o)):
+                        ctx.disagree("no_stray_hash s <-> the charref pattern never fails in substitute_html5 s (evaluated)",
+                                     {"s": s}, not parser_gives_up(o), m["nsh"])
                     st["nbra_true" if m["nbr_attr"] else "nbra_false"] += 1
                     if m["nbr_attr"] != (R["attr"] == s):
                         ctx.disagree("no_bare_ref_attr s <-> read_quoted (quote (substitute_html5 s)) = s (evaluated)",
@@ -511,6 +551,43 @@ def formatter_level(ctx, strings):
                          tag="registry")
 
 
+# ------------------------------------------------------------------------------------------ real reader, other contexts
+def real_reader_contexts(ctx):
+    """Model/TextReaderReal.real_read_text against the parser for raw texts (not outputs), in three document contexts:
+    nothing after the closing tag; a ';' later in the document; and tokenizer already in its second pass (an earlier
+    stray '&#' used up the first)."""
+    if not ctx.build.model_ok:
+        return
+    L = 5 if ctx.thorough else 4
+    texts = ["".join(c) for n in range(L + 1) for c in itertools.product("&;#x1a", repeat=n)]
+    rng = ctx.rng
+    for _ in range(1500 if ctx.thorough else 300):
+        texts.append("".join(rng.choice(["&", ";", "#", "x", "X", "1", "a", "g", "-", " ", "&#", "&#x", "amp", "&#12", "\u00e9"])
+                             for _ in range(rng.randint(0, 10))))
+    texts = list(dict.fromkeys(texts))
+    contexts = [("alone", "", "</pre>", False), ("semicolon later", "", "</pre><b>;</b>", False),
+                ("second pass", "&#!", "</pre><b>;</b>", True)]
+    cmds = [[9014, p2, t, K] for t in texts for (_, _, K, p2) in contexts]
+    res = ctx.model.run(cmds)
+    k = 0
+    for t in texts:
+        for name, before, K, p2 in contexts:
+            r = res[k]; k += 1
+            ctx.case(("ctx", name, t), nontrivial=("&#" in t))
+            try:
+                soup = BeautifulSoup(before + "<pre>" + t + K, "html.parser")
+                pre = soup.find("pre")
+                real = _text_of(pre) if pre is not None else "NOPRE:" + soup.decode(formatter=None)
+            except Exception as e:
+                real = "EXC:" + type(e).__name__
+            if isinstance(r, tuple):
+                ctx.disagree("model run (real reader)", {"text": t}, None, r[1]); continue
+            if ts(r[0]) != real:
+                ctx.disagree("html.parser+bs4 element text ~ Model.TextReaderReal.real_read_text (context: %s)" % name,
+                             {"text": t, "before": before, "after": K}, real, ts(r[0]))
+    ctx.count("real_reader_context_cases", len(cmds))
+
+
 # ------------------------------------------------------------------------------------------ entry points
 def run(ctx):
     _TEXT_CACHE.clear(); _ATTR_CACHE.clear()
@@ -532,6 +609,7 @@ def run(ctx):
         run_family(ctx, kind, strings, st, sub)
         step = max(1, len(strings) // (400 if ctx.thorough else 120))
         slice_for_formatters += strings[::step]
+    real_reader_contexts(ctx)
     formatter_level(ctx, list(dict.fromkeys(slice_for_formatters + ["", "&", "<>", "a\"b'c", "&amp x", "≧̸"])))
     ctx.counts.update({"html5_known_class_cases": st["known"], "html5_no_bare_ref_true": st["nbr_true"],
                        "html5_no_bare_ref_false": st["nbr_false"],
@@ -594,9 +672,9 @@ def replay(ctx, data):
     t = read_text_one(o) if isinstance(o, str) else None
     a = read_attr_one(q) if isinstance(q, str) else None
     print("formatter=%s s=%r -> %r ; as text %r ; quoted %r -> %r ; html.unescape %r"
-          % (fmt, s, o, t, q, a, html.unescape(o) if isinstance(o, str) else None))
+          % (fmt, s, o, t, q, a, py_unescape(o) if isinstance(o, str) else None))
     wf = isinstance(q, str) and len(q) >= 2 and q[0] == q[-1] and q[0] in "\"'" and q[0] not in q[1:-1]
     bad = (t != s or a != s or not isinstance(o, str) or "<" in o or ">" in o or not wf
-           or (fmt != "html5" and html.unescape(o) != s))
+           or (fmt != "html5" and py_unescape(o) != s))
     print("still failing" if bad else "no longer failing")
     return 1 if bad else 0
